@@ -52,6 +52,7 @@ import (
 	"strings"
 	"time"
 
+	intotocmd "github.com/in-toto/in-toto-golang/cmd"
 	intoto "github.com/in-toto/in-toto-golang/in_toto"
 	"verif/harness/lib"
 )
@@ -217,6 +218,10 @@ type loadSpec struct {
 	PEM     []byte   `json:"pem"`              // the input text (JSON: base64)
 	Source  string   `json:"source,omitempty"` // "" data | nil-reader | failing-reader | missing-file
 	Reuse   []byte   `json:"reuse,omitempty"`  // loaded (defaults) into the same Key object first
+	// API "svid": internal/spiffe SVIDDetails.InTotoKey (through the hook cmd.VerifSVIDInTotoKey) on this
+	// private key (PKCS#8 DER) and leaf certificate (DER); PEM is then the PKCS#8 "PRIVATE KEY" text of the key
+	SvidKey  []byte `json:"svid_key,omitempty"`
+	SvidCert []byte `json:"svid_cert,omitempty"`
 	// what happened in the process before this load: keys loaded with the defaults into OTHER Key
 	// variables whose hash algorithm list was then written in place (a caller may do that with its own key)
 	History []histStep `json:"history,omitempty"`
@@ -373,6 +378,16 @@ func runLoad(l loadSpec) (k intoto.Key, err error, panicked bool) {
 		} else {
 			err = k.LoadKeyReaderDefaults(r)
 		}
+	case "svid":
+		priv, e := x509.ParsePKCS8PrivateKey(l.SvidKey)
+		if e != nil {
+			panic(e)
+		}
+		cert, e := x509.ParseCertificate(l.SvidCert)
+		if e != nil {
+			panic(e)
+		}
+		k, err = intotocmd.VerifSVIDInTotoKey(priv.(crypto.Signer), cert, nil)
 	case "file", "file-defaults":
 		path := filepath.Join(tmpDir, "key.pem")
 		if l.Source == "missing-file" {
@@ -736,6 +751,8 @@ func coqAlgs(l loadSpec) string {
 func coqModel(l loadSpec) string {
 	var call string
 	switch l.API {
+	case "svid":
+		return "(show_load (svid_in_toto_key sha_id b64_lines (Some " + coqPemData(l.PEM) + ") " + coqHex(l.SvidCert) + "))"
 	case "reader", "reader-defaults":
 		r := "(RData " + coqPemData(l.text()) + ")"
 		switch l.Source {
@@ -1149,6 +1166,31 @@ func indexOf(ps []pair, name string) int {
 		}
 	}
 	return 0
+}
+
+// The key a SPIFFE workload signs with (internal/spiffe SVIDDetails.InTotoKey): for every pair and a leaf
+// certificate for it, the key must be the default load of the PKCS#8 private key with the certificate attached:
+// type, default scheme, both halves normalised as by the loaders, the id of the public and certificate forms.
+// Being recorded like every other successful load, it also takes part in the relation cases of its pair: one id
+// per setting, and it signs (Metablock, DSSE) what the public and certificate forms verify.
+func (g *gen) svidLoads(tier string) {
+	for pi, p := range g.pairs {
+		fs := g.forms[p.Name]
+		for ci, cf := range fs[len(fs)-2:] { // self-signed and CA-issued leaf
+			if tier != "thorough" && ci != pi%2 {
+				continue
+			}
+			p8, err := x509.MarshalPKCS8PrivateKey(p.Signer)
+			if err != nil {
+				panic(err)
+			}
+			l := loadSpec{API: "svid", PEM: pemOf("PRIVATE KEY", p8), SvidKey: p8, SvidCert: cf.DER}
+			f := form{"svid", "PRIVATE KEY", p8, true, true}
+			e := g.expectOK(p, f, "plain", l)
+			e.Scheme, e.Algs, e.CertDER = defaultScheme[p.keytype()], []string{"sha256", "sha512"}, cf.DER
+			g.emit("svid-key-"+p.keytype(), l, e)
+		}
+	}
 }
 
 // Several blocks in one input: only the first block counts.  A first block with intact armor that
@@ -1701,6 +1743,7 @@ func main() {
 		g.validLoads(tier)
 		g.sizedLoads(tier)
 		g.bigCertLoads(tier)
+		g.svidLoads(tier)
 		g.multiBlockLoads(tier)
 		g.greyLoads(tier)
 		g.refusedLoads(tier)
